@@ -280,10 +280,13 @@ fn gen_proto(w: &mut Rng, v6: bool) -> u8 {
 }
 
 /// Cuts `len` bytes into fragments at multiples of 8: (offset, length, more).
-fn cut(len: usize, max_frags: usize, w: &mut Rng) -> Vec<(usize, usize, bool)> {
+/// No fragment carries more than `max_frag` bytes (what still fits into one
+/// IP packet behind the host's header chain).
+fn cut(len: usize, max_frags: usize, max_frag: usize, w: &mut Rng) -> Vec<(usize, usize, bool)> {
     if len == 0 {
         return vec![];
     }
+    let max_frag = (max_frag / 8) * 8;
     let units = len.div_ceil(8);
     let nf = w.usize_range(2.min(units.max(1)), max_frags.min(units).max(1));
     let mut cuts: Vec<usize> = Vec::new();
@@ -292,13 +295,28 @@ fn cut(len: usize, max_frags: usize, w: &mut Rng) -> Vec<(usize, usize, bool)> {
             cuts.push(w.usize_range(1, units - 1) * 8);
         }
     }
+    // split what would not fit into one packet
+    let mut k = max_frag;
+    while k < len {
+        cuts.push(k);
+        k += max_frag;
+    }
     cuts.sort_unstable();
     cuts.dedup();
     let mut out = Vec::new();
     let mut start = 0;
     for c in cuts {
-        out.push((start, c - start, true));
+        let mut s0 = start;
+        while c - s0 > max_frag {
+            out.push((s0, max_frag, true));
+            s0 += max_frag;
+        }
+        out.push((s0, c - s0, true));
         start = c;
+    }
+    while len - start > max_frag {
+        out.push((start, max_frag, true));
+        start += max_frag;
     }
     out.push((start, len - start, false));
     out
@@ -486,7 +504,8 @@ impl World {
     fn send_datagram(&mut self, idx: usize, stats: &mut Stats, in_heal: bool) {
         let d = self.datagrams[idx].clone();
         let faults_on = !in_heal;
-        let frags = cut(d.payload.len(), self.cfg.max_frags, &mut self.wl);
+        let max_frag = 65_535 - (ip_header_len(&self.hosts[d.host]) - if self.hosts[d.host].v6 { 40 } else { 0 });
+        let frags = cut(d.payload.len(), self.cfg.max_frags, max_frag, &mut self.wl);
         let mut list: Vec<Frag> = frags
             .iter()
             .map(|(o, l, m)| Frag {
@@ -512,7 +531,7 @@ impl World {
         if faults_on && self.wl.prob(self.cfg.p_retransmit) {
             // whole datagram again with a different cut (consistent overlaps)
             stats.inc("fault_fired.retransmit_different_cut");
-            let again = cut(d.payload.len(), self.cfg.max_frags, &mut self.wl);
+            let again = cut(d.payload.len(), self.cfg.max_frags, max_frag, &mut self.wl);
             for (o, l, m) in again {
                 let f = Frag { id: d.id, proto: d.proto, off8: (o / 8) as u16, more: m, payload: d.payload[o..o + l].to_vec() };
                 self.transmit(d.host, &f, true, faults_on, stats);
